@@ -20,7 +20,7 @@ import (
 const localSKI = "1111111111111111111111111111111111111111"
 
 var c17SKIs = map[string]string{"S1": "aaaa000000000000000000000000000000000001", "S2": "bbbb000000000000000000000000000000000002", "self": localSKI}
-var c17Addrs = map[string]string{"a1": "10.0.0.1", "a2": "10.0.0.2", "ll": "fe80::1", "g6": "2001:db8::1"}
+var c17Addrs = map[string]string{"a1": "10.0.0.1", "a2": "10.0.0.2", "ll": "fe80::1", "g6": "2001:db8::1", "l4": "169.254.7.7"}
 var c17Defects = []string{"txtvers2", "noid", "nopath", "noski", "noregister", "registermaybe"}
 
 func c17Events(thorough bool) []string {
@@ -41,6 +41,9 @@ func c17Events(thorough bool) []string {
 	// one record carrying several addresses (zeroconf delivers a record with all A / AAAA answers): a known
 	// address followed by a new one, two IPv4 addresses, IPv4 + link-local + global IPv6
 	out = append(out, "add:S1:a1+g6", "add:S1:a1+a2")
+	// an IPv4 link-local address (self-assigned, the only address of a device on a network without DHCP) is usable;
+	// net.ParseIP hands it out in the 16 byte form
+	out = append(out, "add:S1:l4", "add:S2:a1+l4")
 	if thorough {
 		out = append(out, "add:S1:a2+ll+g6", "add:S2:a1+g6")
 	}
